@@ -21,7 +21,7 @@ func hasProp(props []string, p string) bool {
 }
 
 func contractServes(c *Contract, prop string) bool {
-	if c.Inline {
+	if c.Inline || c.Assumed {
 		return false // loop annotations for a body that is verified inside its callers only
 	}
 	if prop == "C16" {
